@@ -194,7 +194,7 @@ C01.defined: wherever constraints_and_type_name renders a component with the `<P
         }
         ctx.func(&f.key);
     }
-    ctx.floor("C01.vocab/quote-templates", n_quotes, 190);
+    ctx.floor("C01.vocab/quote-templates", n_quotes, 120);
     for (id, (file, line, fname)) in &names {
         ctx.oblige("C01.vocab", id, true);
         let ok = prelude.contains(id) || rust_prelude.contains(id.as_str()) || wrapper_imports.contains(id.as_str());
